@@ -1,3 +1,101 @@
-import PytezosModel.Micheline.Text
+import PytezosModel.Proofs.C18Top
+/-! C18 — Michelson text formatting and parsing are inverse.
+
+`Impl.Text.format` mirrors `micheline_to_michelson` (format.py), `Impl.Text.lex` the PLY lexer and `Impl.Text.parse`
+the grammar actions (parse.py); all tables (`line_size`, the `is_framed` rule, the lexer classes and rule order,
+`prim_tags`) are regenerated from the source.  For EVERY expression in the domain `WFText` (no size bound):
+
+* `lex_format`  — the text, inline or multi-line, lexes to the token stream `toks e` (layout only inserts blanks/newlines);
+* `parse_toks`  — the parser reads `toks e` back to `e`;
+* `roundtrip`   — `michelson_to_micheline (micheline_to_michelson e inline) = e`.
+
+`WFText e`: every primitive is a `prim_tags` name that lexes as one `PRIM` token, every annotation lexes as one
+`ANNOT` token, bytes are bytes (< 256), and the root is not a one-element list holding just a
+`parameter`/`storage`/`code` section (which `format_node` prints as that section alone).  No condition on strings
+(any `Char` sequence — `json.dumps`/`json.loads` are modelled and proved inverse) nor on integers. -/
 namespace C18
+open Impl.Text Generated
+
+theorem wfText_iff (e : Mich) : wfText e = true ↔ WFText e := by
+  unfold wfText WFText
+  constructor
+  · intro h
+    split at h
+    · rename_i sp tags cfg h1 h2 h3
+      simp only [Bool.and_eq_true] at h
+      exact ⟨sp, tags, cfg, h1, h2, h3, h.1, h.2⟩
+    · cases h
+  · rintro ⟨sp, tags, cfg, h1, h2, h3, h4, h5⟩
+    simp [h1, h2, h3, h4, h5]
+
+instance (e : Mich) : Decidable (WFText e) := decidable_of_iff _ (wfText_iff e)
+
+/-- Formatting then lexing gives the token stream of the expression, in both layouts. -/
+theorem lex_format (inline : Bool) (e : Mich) (h : WFText e) :
+    ∃ s ts, format inline e = some s ∧ toks e = some ts ∧ lex s = some ts := by
+  obtain ⟨sp, tags, cfg, hsp, _, hcfg, hwf, _⟩ := h
+  have ok := specOK_of hsp
+  refine ⟨fmtNode cfg inline 0 true false e, toksNode cfg true false e, ?_, ?_, ?_⟩
+  · simp [format, hcfg, wf_primsNonEmpty sp tags e hwf]
+  · simp [toks, hcfg]
+  · have := fmtNode_lx ok tags cfg inline e hwf 0 true false [] Delim.nil
+    simpa [lex, hsp, lexWith] using this
+
+/-- The multi-line layout differs from the inline one only in ignorable white space: same token stream. -/
+theorem layout_irrelevant (e : Mich) (h : WFText e) :
+    (format false e).bind lex = (format true e).bind lex := by
+  obtain ⟨s1, ts1, h1, ht1, hl1⟩ := lex_format false e h
+  obtain ⟨s2, ts2, h2, ht2, hl2⟩ := lex_format true e h
+  rw [ht1] at ht2; cases ht2
+  simp [h1, h2, hl1, hl2]
+
+/-- The parser reads the token stream of an expression back to the expression. -/
+theorem parse_toks (e : Mich) (h : WFText e) : ∃ ts, toks e = some ts ∧ parse ts = some e := by
+  obtain ⟨sp, tags, cfg, _, htags, hcfg, hwf, hroot⟩ := h
+  refine ⟨toksNode cfg true false e, by simp [toks, hcfg], ?_⟩
+  obtain ⟨r, hr, hm⟩ := parseInstr_root tags cfg sp (framed_of hcfg) e hwf hroot
+    (parseFuel (toksNode cfg true false e)) (by simp [parseFuel])
+  have hg : C18.grammarRecognised = true := by decide
+  simp only [parse, parseTop, htags, Option.bind_some, hg, if_true, hr]
+  cases r with
+  | none => simp [IRes.toMich?] at hm
+  | one m => simpa [IRes.toMich?] using hm
+  | many ms => simpa [IRes.toMich?] using hm
+
+/-- The property: `michelson_to_micheline(micheline_to_michelson(e, inline)) == e`, both layouts, every
+well-formed expression. -/
+theorem roundtrip (inline : Bool) (e : Mich) (h : WFText e) : (format inline e).bind parseText = some e := by
+  obtain ⟨s, ts, hs, hts, hl⟩ := lex_format inline e h
+  obtain ⟨ts', hts', hp⟩ := parse_toks e h
+  rw [hts] at hts'; cases hts'
+  obtain ⟨sp, tags, cfg, hsp, _, hcfg, _, _⟩ := h
+  have ok := specOK_of hsp
+  have hts2 : ts = toksNode cfg true false e := by
+    simp only [toks, hcfg, Option.map_some, Option.some.injEq] at hts; exact hts.symm
+  obtain ⟨t, tl, htl, hne⟩ := toksNode_head_unframed cfg true false rfl e
+  have hl' : lexWith sp s = some (t :: tl) := by
+    simpa [lex, hsp, hts2, htl] using hl
+  have hstrip := stripParens_of_lex ok s t tl hl' hne
+  simp [hs, parseText, hstrip, hl, hp]
+
+/-- every `prim_tags` name except the placeholder `__CREATE_ACCOUNT__` is in the domain -/
+theorem prim_tags_lex :
+    lexSpec.all (fun sp => C18.primTags.all (fun tags =>
+      tags.all (fun p => p == "__CREATE_ACCOUNT__" || primLexes sp p.toList))) = true := by
+  decide
+
+-- non-vacuity: the defect shape of the pinned tree, annotations with inner markers, every kind of literal,
+-- nested/empty sequences, a three-section script, a long string
+example : WFText (.prim "pair" [.prim "chest" [] ["%a"], .prim "nat" [] []] []) := by decide
+example : WFText (.prim "Pair" [.prim "Lambda_rec" [.seq [.prim "DROP" [] ["@x"]]] [], .int (-5), .str "a\"b\\c\nd\x01é𝄞",
+    .bytes [], .bytes [0, 255], .seq [], .seq [.seq [], .seq [.seq []]]] []) := by decide
+example : WFText (.seq [.prim "parameter" [.prim "unit" [] []] [], .prim "storage" [.prim "unit" [] []] [],
+    .prim "code" [.seq [.prim "CDR" [] [], .prim "NIL" [.prim "operation" [] []] [], .prim "PAIR" [] []]] []]) := by decide
+example : (format true (.prim "pair" [.prim "chest" [] ["%a"], .prim "nat" [] []] [])).bind parseText
+    = some (.prim "pair" [.prim "chest" [] ["%a"], .prim "nat" [] []] []) := roundtrip _ _ (by decide)
+-- outside the domain: a one-section "script" at the root, a macro name, a non-byte
+example : ¬ WFText (.seq [.prim "code" [.seq []] []]) := by decide
+example : ¬ WFText (.prim "DIIP" [.seq []] []) := by decide
+example : ¬ WFText (.bytes [256]) := by decide
+
 end C18
